@@ -40,6 +40,8 @@ def host_macros(names_prefixes=('E', 'SEEK_', 'O_', 'CLOCK_', 'PATH_MAX', 'WASI_
             return None
         try:
             t = s.rstrip('uUlL')
+            if len(t) > 1 and t[0] == '0' and t[1:].isdigit():
+                return int(t, 8)
             return int(t, 0)
         except ValueError:
             pass
